@@ -1589,6 +1589,9 @@ def _handle_unwind_stage(in_collection, unused_database, options):
             iter_array = [(None, array_value)]
         for index, field_item in iter_array:
             new_doc = copy.deepcopy(doc)
+            if index is not None:
+                # the item of the copy, so that no output document shares it with the input
+                field_item = helpers.get_value_by_dot(new_doc, path)[index]
             new_doc = helpers.set_value_by_dot(new_doc, path, field_item)
             if include_array_index:
                 new_doc = _set_index(new_doc, index)
